@@ -991,6 +991,10 @@ class MetricFrame:
             else:
                 raise ValueError(_FEATURE_LIST_NONSCALAR)
         elif isinstance(features, dict):
+            # Rows are paired by position: pandas values are not to be aligned on their index labels
+            features = {
+                k: v.to_numpy() if isinstance(v, pd.Series) else v for k, v in features.items()
+            }
             try:
                 df = pd.DataFrame.from_dict(features)
             except ValueError as ve:
